@@ -57,6 +57,7 @@ def binary_search_lightness(
         best_rgb = None
         best_delta_e = float("inf")
         best_contrast = 0.0
+        best_meets_target = False
 
         # Precision-matched binary search (20 iterations = ~1M precision)
         for _ in range(20):
@@ -84,10 +85,12 @@ def binary_search_lightness(
 
             # Track best valid candidate
             if contrast >= target_contrast:
-                if delta_e < best_delta_e:
+                # A candidate that meets the target always replaces one that does not
+                if not best_meets_target or delta_e < best_delta_e:
                     best_rgb = candidate_rgb
                     best_delta_e = delta_e
                     best_contrast = contrast
+                    best_meets_target = True
                 # Try to minimize DeltaE further
                 if search_up:
                     high = mid
@@ -100,7 +103,7 @@ def binary_search_lightness(
                 else:
                     high = mid
                 # Update best if better contrast found
-                if contrast > best_contrast:
+                if not best_meets_target and contrast > best_contrast:
                     best_contrast = contrast
                     best_rgb = candidate_rgb
                     best_delta_e = delta_e
